@@ -1,7 +1,7 @@
 """C05 - printed configuration parses back to the same configuration (writer/reader agreement only)."""
 import re
 
-from .. import sym, lexmodel, parsermodel as pm, report
+from .. import outmodel, loops as _loops, cfg as _cfg, sym, lexmodel, parsermodel as pm, report
 
 EXPLANATION = (
     'Static writer/reader agreement, a necessary condition of the round trip (the round trip itself quantifies over '
@@ -12,6 +12,9 @@ EXPLANATION = (
     'to the byte itself according to the reader. Obligation: reader-special is a subset of writer-escaped. Every print '
     'format that places a %s between double quotes must receive a string that went through the escaping writer; the '
     'annotation writer must not emit the reader\'s comment terminator inside the comment body.')
+
+
+PRINT_CALLS = ('cfg_indent', 'cfg_print_quoted', 'cfg_print_pff_indent', 'cfg_opt_print_pff_indent', 'cfg_opt_nprint_var', 'indirect:')
 
 
 def run(c, chk):
@@ -45,7 +48,9 @@ def run(c, chk):
     # writer side: every function that writes a lone double quote is a quoting writer
     writers = []
     for f in c.confuse.funcs.values():
-        if any(c.string_arg(call, 1) == '"' for call in f.calls('fprintf')):
+        if f.name in c.unknown_funcs:
+            continue
+        if any(lit == '"' for g in c.deep_funcs(f) for _, lit in outmodel.static_literals(c, g)):
             writers.append(f)
     if not writers:
         raise report.Broken('no function writes a lone double quote: the quoting writer was not found')
@@ -54,41 +59,69 @@ def run(c, chk):
     reported = set()
     fn = writers[0]
     for wf in writers:
-        esc = {}
-        raw_c = quoted = False
+        # (a) whatever the function writes is enclosed in double quotes
+        quoted = False
         for p in ex.explore(wf):
             if p.end != 'ret':
                 continue
-            fps = [e for e in p.events if e.kind == 'call' and e.name == 'fprintf']
-            texts = [e.args[1][1] if e.args[1][0] == 'str' else None for e in fps]
-            if '"' not in texts:
+            text, _ = outmodel.render(outmodel.tokens(p.events))
+            if not text:
                 continue
-            if texts.count('"') >= 2 or (texts and texts[0] == '"'):
+            if len(text) >= 2 and text[0] == '"' and text[-1] == '"':
                 quoted = True
-            for k_, (cn, t, ins) in enumerate(p.assume):
-                if cn[0] == 'icmp' and cn[1] in ('eq', 'ne') and sym.is_const(cn[3]) and ((cn[1] == 'eq') == t):
-                    byte = cn[3][1] & 0xff
-                    nxt = [e for e in fps if e.seq > k_]
-                    if nxt and nxt[0].args[1][0] == 'str' and len(nxt[0].args) == 2:
-                        s_ = nxt[0].args[1][1]
-                        if len(s_) == 2 and s_[0] == '\\':
-                            esc[byte] = s_
-            if any(t == '%c' for t in texts):
-                raw_c = True
-            # every piece written between the quotes must be a form the reader decodes independently of what follows
-            for e in fps:
-                t = e.args[1][1] if e.args[1][0] == 'str' else None
-                if t in ('"', '%c') or (t is not None and len(t) == 2 and t[0] == '\\' and '%' not in t):
+            else:
+                quoted = False
+                break
+        # (b) one iteration of the copying loop: what is written for which byte
+        esc = {}
+        raw_c = False
+        for h in sorted(_cfg.natural_loops(wf)):
+            for p in _loops.iterate(ex, wf, h):
+                if p.end != 'stop':
                     continue
-                if t == '\\%03o':
+                toks = outmodel.tokens(p.events)
+                if not toks:
+                    continue
+                spec = {}
+                for cn, t, ins in p.assume:
+                    if cn[0] == 'icmp' and cn[1] in ('eq', 'ne') and sym.is_const(cn[3]) and ((cn[1] == 'eq') == t):
+                        x = outmodel._strip(cn[2])
+                        if x[0] == 'ld':
+                            spec[sym.norm(x)] = cn[3][1] & 0xff
+                byte = None
+                form = ''
+                for t in toks:
+                    if t[0] == 'lit':
+                        form += t[1]
+                        continue
+                    v = sym.norm(outmodel._strip(t[2])) if t[0] == 'arg' else None
+                    if t[0] == 'arg' and v is not None and v[0] == 'ld':
+                        if t[1] == '%c':
+                            form += chr(spec[v]) if v in spec else '\x01'
+                        else:
+                            form += '\x01' + t[1]
+                        if v in spec:
+                            byte = spec[v]
+                    else:
+                        form += '\x02'
+                if byte is None and len(spec) == 1 and '\x01' not in form and '\x02' not in form:
+                    byte = list(spec.values())[0]
+                if form == '\x01' or (byte is not None and form == chr(byte)):
+                    raw_c = raw_c or byte is None
+                    continue
+                if byte is not None and len(form) == 2 and form[0] == '\\':
+                    esc[byte] = form
+                    continue
+                if form == '\\\x01%03o':
                     continue          # fixed-width octal: the reader's 1-3 digit rule takes exactly these three digits
-                key = 'writer-escape-form:%s:%s' % (wf.name, t)
+                shown = form.replace('\x01', '<byte>').replace('\x02', '<?>')
+                key = 'writer-escape-form:%s:%s' % (wf.name, shown)
                 if key not in reported:
                     reported.add(key)
-                    chk.fail('R5.1', key, c.where(e.ins), '%s() writes %r inside the quotes: a variable-length or unknown escape form - what the reader decodes '
-                             'depends on the characters that follow (e.g. an unpadded octal escape swallows a following digit)' % (wf.name, t))
+                    chk.fail('R5.1', key, c.where(toks[0][-1].ins), '%s() writes %r inside the quotes: a variable-length or unknown escape form - what the reader decodes '
+                             'depends on the characters that follow (e.g. an unpadded octal escape swallows a following digit)' % (wf.name, shown))
         if not quoted or not raw_c:
-            raise report.Broken('quoting writer %s() was not recognised (quotes=%s, %%c=%s)' % (wf.name, quoted, raw_c))
+            raise report.Broken('quoting writer %s() was not recognised (quotes=%s, plain bytes copied=%s)' % (wf.name, quoted, raw_c))
         if escaped is None:
             escaped = esc
         else:
@@ -121,25 +154,34 @@ def run(c, chk):
 
     # ---- R5.2 ---------------------------------------------------------------------------------
     nfmt = 0
+    nprinters = 0
+    ex2 = sym.Explorer(c.modules, max_visits=2, mod_sets=c.mod_sets, max_paths=200000)
     for f in c.confuse.funcs.values():
-        for call in f.calls('fprintf'):
-            s_ = c.string_arg(call, 1)
-            if not s_:
+        if f.name in c.unknown_funcs or not any(outmodel.writes_anything(g) for g in c.deep_funcs(f)):
+            continue
+        nprinters += 1
+        hit = None
+        for p in ex2.explore(f):
+            if p.end != 'ret':
                 continue
-            for m in re.finditer(r'"[^"%]*%s[^"]*"', s_):
-                nfmt += 1
-                # which argument feeds this %s
-                k = s_[:m.start() + m.group(0).index('%s')].count('%')
-                chk.fail('R5.2', 'raw-quoted:%s' % f.name, c.where(call),
-                         '%s() writes %r with an unescaped %%s between double quotes (argument %d): a value containing \'"\', \'\\\\\' or \'${\' does not read back'
-                         % (f.name, s_, k + 1))
+            toks = outmodel.tokens(p.events, calls=PRINT_CALLS)
+            text, index = outmodel.render(toks)
+            m = re.search(r'"[^"\x00]*%s[^"\x00]*"', text)
+            if m:
+                k = index[m.start() + m.group(0).index('%s')]
+                hit = (toks[k], m.group(0))
+                break
+        if hit:
+            nfmt += 1
+            t, frag = hit
+            chk.fail('R5.2', 'raw-quoted:%s' % f.name, c.where(t[-1].ins),
+                     '%s() writes %s as a raw %%s between double quotes (%r): a value containing \'"\', \'\\\\\' or \'${\' does not read back'
+                     % (f.name, sym.render(t[2]), frag))
     # positive evidence: titles go through the escaping writer
     opf = c.need('cfg_opt_print_pff_indent')
-    tcalls = [x for x in opf.calls() if x.callee_name() in ('cfg_title',)]
     if nfmt == 0:
-        chk.ok('R5.2', 'print formats', 'no format places %s between double quotes; quoted data goes through the escaping writer', sample=True)
-    # the helper that prints a quoted string must be the same escaping loop: every fprintf("\"") pair encloses only escaped output
-    chk.floor('R5.2 print functions scanned', len([f for f in c.confuse.funcs.values() if any(True for _ in f.calls('fprintf'))]), 4)
+        chk.ok('R5.2', 'print paths of %d functions' % nprinters, 'no path writes a raw %s between double quotes; quoted data goes through the escaping writer', sample=True)
+    chk.floor('R5.2 print functions scanned', nprinters, 4)
 
     # ---- R5.4: what is printed for a list reads back as that list ------------------------------
     chk.rule('R5.4', 'a list option is never written commented out (an empty list must read back as empty, not as its default)')
@@ -152,10 +194,17 @@ def run(c, chk):
 
     # ---- R5.3 ---------------------------------------------------------------------------------
     cw = None
-    for call in opf.calls('fprintf'):
-        s_ = c.string_arg(call, 1)
-        if s_ and '/*' in s_ and '%s' in s_ and '*/' in s_:
-            cw = call
+    for p in ex2.explore(opf):
+        if p.end != 'ret':
+            continue
+        toks = outmodel.tokens(p.events, calls=PRINT_CALLS)
+        text, index = outmodel.render(toks)
+        m = re.search(r'/\*[^\x00]*?(%s)[^\x00]*?\*/', text)
+        if m:
+            t = toks[index[m.start(1)]]
+            if sym.mentions(t[2], lambda v: v[0] == 'fld' and v[3] == 'comment'):
+                cw = t[-1].ins
+                break
     if cw is None:
         chk.ok('R5.3', 'annotation writer', 'annotations are not written inside /* */ by a raw %s', nontrivial=False)
     else:
